@@ -236,6 +236,11 @@ class TypeMap:
         while i < len(toks):
             t = toks[i]
             if t.kind == 'id':
+                if t.text == 'std' and i + 2 < len(toks) and toks[i + 1].text == '::' and toks[i + 2].text == 'size_t':
+                    i += 2
+                    words.append('size_t')
+                    i += 1
+                    continue
                 if t.text == 'std':
                     # std::vector<T>  -> T*
                     rest = ''.join(x.text for x in toks[i:])
@@ -474,10 +479,20 @@ class Source:
 
     # -- class members -----------------------------------------------------
 
-    def class_members(self, cls):
+    def class_members(self, cls, defined=None):
         """Return list of (kind, payload): ('field', type_text, name, array_suffix) or
-        ('union', [fields...]).  Only data members at depth 1."""
+        ('union', [fields...]).  Only data members at depth 1.  Conditional-compilation
+        regions inside the class body are resolved like in function bodies (R8)."""
         o, c = self.class_body(cls)
+        if defined is not None and re.search(r'^\s*#\s*(if|ifdef|ifndef)', self.blank[o:c], re.M):
+            fires = {}
+            resolved = resolve_conditionals(self.nocomment[o:c + 1], defined, 'class ' + cls, fires)
+            # same line structure; rebuild a temporary Source-like view
+            tmp = Source.__new__(Source)
+            tmp.rel = self.rel
+            tmp.text = resolved
+            tmp.nocomment, tmp.blank = strip_comments(resolved)
+            return tmp._members(1, len(resolved) - 1)
         return self._members(o + 1, c)
 
     def _members(self, a, b):
@@ -646,6 +661,19 @@ def rewrite_body(body, ctx, cname):
                 ctx.fire('R5')
         toks = tokenize(untokenize(toks))
 
+    # ---- R10 function-local 'static const T x = e;' -> 'const T x = e;' (C requires constant
+    # initialisers for statics; for const objects with side-effect-free initialisers the
+    # meaning is the same)
+    for i, t in enumerate(toks):
+        if t.kind == 'id' and t.text == 'static':
+            n = sig(toks, i, 1)
+            if n is not None and toks[n].text == 'const':
+                t.text = ''
+                ctx.fire('R10')
+            else:
+                raise ExtractError("%s: function-local static that is not const" % cname)
+    toks = tokenize(untokenize(toks))
+
     # ---- R1 throw
     i = 0
     out = []
@@ -764,6 +792,8 @@ def rewrite_body(body, ctx, cname):
                 del out[p + 1:]
                 if left in ('MEDDLY',):
                     out[p] = Tok('id', toks[n].text)
+                elif left == 'std' and toks[n].text == 'size_t':
+                    out[p] = Tok('id', 'size_t')
                 elif left == 'std':
                     raise ExtractError("%s: std::%s in body" % (cname, toks[n].text))
                 else:
@@ -1015,6 +1045,8 @@ def parse_params(ptext, tm):
             raise ExtractError("unnamed parameter %r" % untokenize(arg))
         ctype, ref = tm.map(ttext)
         is_const = 'const' in [t.text for t in atoks[:-1]]
+        if ref and is_const and not ctype.startswith('struct ') and not ctype.endswith('*'):
+            ref = False    # const scalar reference: pass by value (same meaning, callers may pass rvalues)
         res.append((ctype + arr, name, ref, is_const))
     return res
 
